@@ -492,9 +492,39 @@ def as_seq(ex, v, fr):
     return ex.iterate(v, fr)
 
 
+@libfn("itertools.count")
+def _count(ex, args, kwargs, fr):
+    return VOpaque("count", None, {"start": args[0] if args else VInt(0)})
+
+
+@libfn("toolz.unique", "toolz.itertoolz.unique")
+def _unique(ex, args, kwargs, fr):
+    out = []
+    for x in ex.iterate(args[0], fr):
+        if not any(ex.same_key(x, y) for y in out):
+            out.append(x)
+    return ex.st.alloc(HList(out))
+
+
 @libfn("builtins.zip")
 def _zip(ex, args, kwargs, fr):
     strict = kwargs.get("strict")
+    counts = [a for a in args if isinstance(a, VOpaque) and a.kind == "count"]
+    if counts:
+        others = [as_seq(ex, a, fr) for a in args if not (isinstance(a, VOpaque) and a.kind == "count")]
+        if any(isinstance(o, VSeq) for o in others) or not others:
+            raise Unsupported("zip(count(), <symbolic sequence>)")
+        n = min(len(o) for o in others)
+        rows = []
+        for i in range(n):
+            row, it = [], iter(others)
+            for a in args:
+                if isinstance(a, VOpaque) and a.kind == "count":
+                    row.append(ex.binop(ast.Add(), a.info["start"], VInt(i), fr))
+                else:
+                    row.append(next(it)[i])
+            rows.append(VTuple(row))
+        return ex.st.alloc(HList(rows))
     seqs = [as_seq(ex, a, fr) for a in args]
     if any(isinstance(s, VSeq) for s in seqs):
         ns = [s.n if isinstance(s, VSeq) else z3.IntVal(len(s)) for s in seqs]
@@ -788,6 +818,10 @@ def _list(ex, args, kwargs, fr):
     if isinstance(args[0], VSeq):
         s = args[0]
         return VSeq(s.n, s.get, s.term, "list")
+    if isinstance(args[0], VOpaque):
+        h = ex.cfg.lib_overrides.get(("list_of", args[0].kind))
+        if h is not None:
+            return h(ex, args[0], fr)
     return ex.st.alloc(HList(ex.iterate(args[0], fr)))
 
 
